@@ -11,6 +11,7 @@ use std::sync::atomic::Ordering;
 fn small_items(ctx: &Ctx) -> Vec<corpus::Item> {
     let mut items = corpus::all_items();
     items.extend(corpus::special_items());
+    items.extend(corpus::option_items());
     items.extend(crate::gen::lark_family(ctx.tier.pick(2, 3)));
     items
 }
